@@ -115,10 +115,10 @@ PROPS["C01"] = {
     "level_text": "Generated messages x exhaustive single cuts and byte-by-byte delivery per message, sampled multi-cut sets; the AST oracle is independent of the parser. Exploration: messages are sampled, the 2^(n-1) segmentations are covered exhaustively only for the single-cut and all-cut members.",
     "level_note": "The last stage is the server-level confirmation (harness/c0134_server.cc): the same generated requests written in generated segmentations to a live endpoint whose handler returns a hash of what it parsed, compared with a fresh one-shot in-process parse. Pipelining (two messages in one read) is outside the domain; which error code a malformed message gets is not judged, only that it is the same under every segmentation; no parse() call after Done/error (callers reset).",
     "assumptions": ["a hang is detected by a 10 s watchdog on work that takes microseconds, and re-run 3x before it is reported"],
-    "quick": {"stages": [{"kind": "replay"}, {"kind": "rc", "procs": 8, "cases": 1200, "maxlen": 900}, {"kind": "rc", "source": "c0134_server.cc", "procs": 4, "cases": 150, "maxlen": 1200}]},
+    "quick": {"stages": [{"kind": "replay"}, {"kind": "rc", "procs": 8, "cases": 1200, "maxlen": 900}, {"kind": "rc", "source": "c0134_server.cc", "noshrink": True, "procs": 4, "cases": 150, "maxlen": 1200}]},
     "thorough": {"stages": [{"kind": "replay"}, {"kind": "rc", "procs": 16, "cases": 12000, "maxlen": 1400},
                             {"kind": "fuzz", "workers": 16, "seconds": 240, "maxlen": 1400},
-                            {"kind": "rc", "source": "c0134_server.cc", "procs": 6, "cases": 3000, "maxlen": 1600}]},
+                            {"kind": "rc", "source": "c0134_server.cc", "noshrink": True, "procs": 6, "cases": 3000, "maxlen": 1600}]},
 }
 
 PROPS["C03"] = {
@@ -136,10 +136,10 @@ PROPS["C03"] = {
     "level_text": "Generated/fuzzed byte sequences x segmentations; the oracle asserts safety, termination and the memory bound only, so it cannot be fooled by what the right answer is. Exploration only.",
     "level_note": "The last stage is server-level (harness/c0134_server.cc): arbitrary bytes and near-well-formed requests in arbitrary segments to a live endpoint; whatever comes back must be well-formed 2xx/4xx/5xx responses (or nothing) and a second connection must still be answered. ASan does not intercept every libc routine (hence the guard-page buffers).",
     "assumptions": ["ASan/UBSan see every memory error in instrumented code; uninstrumented libc reads past a buffer are caught only where the buffer ends at the guard page"],
-    "quick": {"stages": [{"kind": "replay"}, {"kind": "rc", "procs": 8, "cases": 12000, "maxlen": 1200}, {"kind": "rc", "source": "c0134_server.cc", "procs": 4, "cases": 200, "maxlen": 1200}]},
+    "quick": {"stages": [{"kind": "replay"}, {"kind": "rc", "procs": 8, "cases": 12000, "maxlen": 1200}, {"kind": "rc", "source": "c0134_server.cc", "noshrink": True, "procs": 4, "cases": 200, "maxlen": 1200}]},
     "thorough": {"stages": [{"kind": "replay"}, {"kind": "rc", "procs": 8, "cases": 60000, "maxlen": 2000},
                             {"kind": "fuzz", "workers": 16, "seconds": 360, "maxlen": 4096},
-                            {"kind": "rc", "source": "c0134_server.cc", "procs": 6, "cases": 4000, "maxlen": 1600}]},
+                            {"kind": "rc", "source": "c0134_server.cc", "noshrink": True, "procs": 6, "cases": 4000, "maxlen": 1600}]},
 }
 
 PROPS["C04"] = {
@@ -155,10 +155,10 @@ PROPS["C04"] = {
     "level_text": "Generated histories with a differential oracle (same element, same segmentation, fresh parser). Exploration only.",
     "level_note": "The harness replays the reset discipline of Http::Handler::onInput and of the client's handleResponsePacket/handleError by hand (documented in the harness); pipelined requests are outside the domain. The last stage is the server-level confirmation (harness/c0134_server.cc): the k-th request on a keep-alive connection of a live endpoint - also right after a 413 - must hash like a fresh one-shot parse; the client side is exercised by C15.",
     "assumptions": ["the hand-written reset discipline in the harness matches the real callers (re-read when src/common/http.cc or src/client/client.cc change)"],
-    "quick": {"stages": [{"kind": "replay"}, {"kind": "rc", "procs": 8, "cases": 8000, "maxlen": 1600}, {"kind": "rc", "source": "c0134_server.cc", "procs": 4, "cases": 150, "maxlen": 1200}]},
+    "quick": {"stages": [{"kind": "replay"}, {"kind": "rc", "procs": 8, "cases": 8000, "maxlen": 1600}, {"kind": "rc", "source": "c0134_server.cc", "noshrink": True, "procs": 4, "cases": 150, "maxlen": 1200}]},
     "thorough": {"stages": [{"kind": "replay"}, {"kind": "rc", "procs": 16, "cases": 80000, "maxlen": 2400},
                             {"kind": "fuzz", "workers": 16, "seconds": 240, "maxlen": 2400},
-                            {"kind": "rc", "source": "c0134_server.cc", "procs": 6, "cases": 3000, "maxlen": 1600}]},
+                            {"kind": "rc", "source": "c0134_server.cc", "noshrink": True, "procs": 6, "cases": 3000, "maxlen": 1600}]},
 }
 
 PROPS["C10"] = {
@@ -235,12 +235,12 @@ PROPS["C13"] = {
                          {"kind": "enum", "scope": "all schedules of 1x1, 1x2, 1x3, 2x1 with 0 and 1 early poll (2x1+early-poll capped at 400000 schedules per partition)",
                           "jobs": _enum_jobs([(1, 1, 0), (1, 1, 1), (1, 2, 0), (1, 2, 1), (1, 3, 0), (2, 1, 0), (2, 1, 1)], 400000)},
                          {"kind": "rc", "procs": 4, "cases": 6000, "maxlen": 200},
-                         {"kind": "rc", "source": "c13_drains.cc", "procs": 4, "cases": 40, "maxlen": 100}]},
+                         {"kind": "rc", "source": "c13_drains.cc", "noshrink": True, "procs": 4, "cases": 40, "maxlen": 100}]},
     "thorough": {"stages": [{"kind": "replay"},
                             {"kind": "enum", "scope": "all schedules of 1x1..1x3, 2x1, 2x2, 3x1 with 0 and 1 early poll (capped at 3000000 schedules per partition)",
                              "jobs": _enum_jobs([(1, 1, 0), (1, 1, 1), (1, 2, 0), (1, 2, 1), (1, 3, 0), (1, 3, 1), (2, 1, 0), (2, 1, 1), (2, 2, 0), (3, 1, 0)], 3000000)},
                             {"kind": "rc", "procs": 8, "cases": 100000, "maxlen": 300},
-                            {"kind": "rc", "source": "c13_drains.cc", "procs": 8, "cases": 600, "maxlen": 100}]},
+                            {"kind": "rc", "source": "c13_drains.cc", "noshrink": True, "procs": 8, "cases": 600, "maxlen": 100}]},
 }
 
 _C12_CFGS = [(s, r, v) for s in range(4) for r in (0, 1) for v in (0, 1)]
@@ -276,6 +276,7 @@ PROPS["C12"] = {
 
 PROPS["C05"] = {
     "hang_s": 90,
+    "noshrink": True,  # live sockets: after a failure the next case may inherit a poisoned connection, a shrunk input would be bogus
     "source": "c05_emitted.cc",
     "level": "exploration",
     "fuzz": False,
@@ -298,6 +299,7 @@ PROPS["C05"] = {
 
 PROPS["C02"] = {
     "hang_s": 90,
+    "noshrink": True,  # live sockets: after a failure the next case may inherit a poisoned connection, a shrunk input would be bogus
     "source": "c02_roundtrip.cc",
     "level": "exploration",
     "fuzz": False,
@@ -361,6 +363,7 @@ PROPS["C08"] = {
 
 PROPS["C06"] = {
     "hang_s": 90,
+    "noshrink": True,  # live sockets: after a failure the next case may inherit a poisoned connection, a shrunk input would be bogus
     "source": "c06_writes.cc",
     "level": "fault_enumeration",
     "fuzz": False,
